@@ -328,6 +328,9 @@ func checkC01(c *Ctx) {
 	c.Traces(int64(len(items)))
 	c.Set("link_snippets", len(items))
 	validateLink(c, items)
+	if !c01LinkMC(c) {
+		return
+	}
 	c01Dirs(c)
 	c.Set("rule", "case = one gofmt-canonical file through one entry point (bytes compared), or one declaration snippet whose fragment list and attachments are validated by TLC against Link.tla; non-trivial = the input contains comments; distinct by path+entry / snippet text")
 }
